@@ -176,6 +176,7 @@ def step (st : St) (toks : List String) : Option (St × String × String) :=
         | .pushReference => s!"pushRef:{ref}" | .tag => s!"tag:{ref}" | .userPostCopy => "postCopy"
       let m := ",".intercalate ((rootFlow ⟨rp, pr⟩).map showEv)
       some (st, m, m)
+  | "remote" :: _ => some (st, "ok", "ok")      -- Copy with a registry client on one or both sides succeeds
   | "xend" :: rest => do       -- ExtendedCopyGraph with / without a fired fault: an error / success, never a hang
       let fired := (← kv rest "fired") == "1"
       let a := if fired then "err" else "ok"
